@@ -2,6 +2,7 @@
 // input line:  <time_ms> <type> <msg> <fmt> <cat> <file> <fn> <line> <na> [<key> <value>]...
 //   strings are hex UTF-16 units; "-" = empty string; "0" = null pointer / not formatted
 //   value: n | t | f | i<qlonglong> | I<int> | d<double holding an integer> | s<hex16> | a<count> v... | o<count> (k v)...
+// the virtual clock is advanced by 61.001 s between the creation of the message and format()
 // output line: <time().toMSecsSinceEpoch()> <threadId> <hex of qVersion()> <hex of format()>
 #ifdef VERIF_HEADER_ONLY
 #include "qtlogger.h"
@@ -74,6 +75,8 @@ int main()
         LogMessage m((QtMsgType)type, ctx, unhex(msg));
         if (fmt != "0") m.setFormattedMessage(unhex(fmt));
         for (int i = 0; i < na; i++) { std::string k; is >> k; QVariant v = val(is); m.setAttribute(unhex(k), v); }
-        std::cout << m.time().toMSecsSinceEpoch() << " " << m.threadId() << " " << hex(QString::fromLatin1(qVersion())) << " " << hex(sf.format(m)) << "\n";
+        const long long created = m.time().toMSecsSinceEpoch();
+        g_ms += 61001; // the event is serialised later than the message was created: its timestamp must still be the message's
+        std::cout << created << " " << m.threadId() << " " << hex(QString::fromLatin1(qVersion())) << " " << hex(sf.format(m)) << "\n";
     }
 }
